@@ -64,15 +64,28 @@ def solve(f, timeout, want_model=False, hints=None):
     are polynomial / rational identities modulo the root relations in a fraction of a second, and never refutes."""
     total = 0.0
     last = "unknown"
+    # 1. a short SMT attempt: most obligations are decided in a few milliseconds
+    name0, cmd0, mcmd0 = SOLVERS[0]
+    out, t = _run(cmd0.format(f=f), min(3, timeout))
+    total += t
+    first = out.strip().split("\n", 1)[0].strip() if out.strip() else ""
+    if first == "unsat":
+        return "unsat", name0, total, ""
+    if first == "sat":
+        out2, _ = _run(mcmd0.format(f=f), min(10, timeout))
+        return "sat", name0, total, out2 if out2.strip().startswith("sat") else out
+    # 2. exact algebra for (conjunctions of) equalities
     out, t = _run("python3-vt %s %s" % (ALGEBRA, f), min(timeout, 120))
     total += t
     if out.strip().split("\n", 1)[0].strip() == "unsat":
         return "unsat", "algebra(sympy-1.14 exact polynomial arithmetic)", total, ""
+    # 3. refutation with the inputs fixed to a generic model of the preconditions
     if hints and "does not reduce to zero" in out:
         st, t, model = guided_refutation(f, hints)
         total += t
         if st == "sat":
             return "sat", "z3-5.1 (inputs fixed to a model of pre /\\ path)", total, model
+    # 4. the full portfolio
     for name, cmd, mcmd in SOLVERS:
         out, t = _run(cmd.format(f=f), timeout)
         total += t
@@ -232,6 +245,13 @@ def run_spec(ctx, src="e2.cxx", exe="e2", prefix_filter="", flags="", per_timeou
             if feasible is False:
                 res.append(("vacuous", nm))
                 continue
+            res.append(("todo", (c, pth, e, nm, hints)))
+        return res
+
+    def do_ob(item):
+        c, pth, e, nm, hints = item
+        res = []
+        if True:
             st, be, t, model = solve(e["file"], tmo, hints=hints)
             vc = os.path.relpath(e["file"], ctx.verif)
             if st == "unsat":
@@ -260,8 +280,11 @@ def run_spec(ctx, src="e2.cxx", exe="e2", prefix_filter="", flags="", per_timeou
                 res.append(("ob", Obligation(nm, UNDECIDED, be, t, "no solver decided within %ds: %s" % (tmo, st), vc=vc)))
         return res
 
+    # phase 1: reachability of every path (vacuity, pruning, hints); phase 2: every obligation is its own job
     with ThreadPoolExecutor(max_workers=int(os.environ.get("VERIF_JOBS", "16"))) as ex:
         allres = list(ex.map(do_path, sorted(paths)))
+        todo = [x for res in allres for kind, x in res if kind == "todo"]
+        allres = [[(k, x) for k, x in res if k != "todo"] for res in allres] + list(ex.map(do_ob, todo))
     reach_ok = {}
     nvac = 0
     for res in allres:
